@@ -20,6 +20,23 @@ From MV Require Import Crypto.CryptoPrims Crypto.CryptoSpec Crypto.CryptoModel C
 Import ListNotations.
 Local Open Scope nat_scope.
 
+(* ------------------------------------------------------------------ the bytes passed at each derivation site
+   Gen/TlsLabels.v lists, per role, the distinct (label, length) byte strings the code hands over (resolved from the
+   source: literals, #defines, named constants, sizeof / strlen lengths - a length covering the terminator yields the NUL).
+   A well-formed tree has exactly one per role; anything else makes the model use the empty label, which no RFC has. *)
+Definition the_lbl (l : list (list N)) : list N := match l with [x] => x | _ => [] end.
+Definition l_master := the_lbl lbl_master.            Definition l_ext_master := the_lbl lbl_ext_master.
+Definition l_key_block := the_lbl lbl_key_block.      Definition l_client_finished := the_lbl lbl_client_finished.
+Definition l_server_finished := the_lbl lbl_server_finished.
+Definition l_derived := the_lbl lbl_derived.          Definition l_res_binder := the_lbl lbl_res_binder.
+Definition l_ext_binder := the_lbl lbl_ext_binder.    Definition l_c_e_traffic := the_lbl lbl_c_e_traffic.
+Definition l_c_hs_traffic := the_lbl lbl_c_hs_traffic. Definition l_s_hs_traffic := the_lbl lbl_s_hs_traffic.
+Definition l_c_ap_traffic := the_lbl lbl_c_ap_traffic. Definition l_s_ap_traffic := the_lbl lbl_s_ap_traffic.
+Definition l_res_master := the_lbl lbl_res_master.    Definition l_finished := the_lbl lbl_finished.
+Definition l_key := the_lbl lbl_key.                  Definition l_iv := the_lbl lbl_iv.
+Definition l_resumption := the_lbl lbl_resumption.
+Definition l_cv_server := the_lbl lbl_cv_server.      Definition l_cv_client := the_lbl lbl_cv_client.
+
 (* ================================================================== prf.c *)
 Section PModel.
   Variable hctx : Type.
@@ -96,7 +113,7 @@ Definition tls_prf_model (tls12 sha3 : bool) (sec seed : list N) (outLen : nat) 
 (* ================================================================== tls.c *)
 (* tlsDeriveKeys: msSeed = "master secret"[0..LABEL_SIZE) + clientRandom + serverRandom; PRF to masterSecret[48] *)
 Definition derive_master_model (tls12 sha3 : bool) (premaster cr sr : list N) : res (list N) :=
-  tls_prf_model tls12 sha3 premaster (firstn n_tls_LABEL_SIZE s_tls_LABEL_MASTERSEC ++ cr ++ sr) t_SSL_HS_MASTER_SIZE.
+  tls_prf_model tls12 sha3 premaster (l_master ++ cr ++ sr) t_SSL_HS_MASTER_SIZE.
 
 (* a running transcript hash = the chunks sslUpdateHSHash was called with *)
 Definition md5sha1_final (chunks : list (list N)) : list N :=
@@ -109,13 +126,13 @@ Definition hs_snapshot_model (tls12 sha3 : bool) (chunks : list (list N)) : list
 (* tlsExtendedDeriveKeys: msSeed = "extended master secret" + hash *)
 Definition derive_ext_master_model (tls12 sha3 : bool) (premaster : list N) (chunks : list (list N)) : res (list N) :=
   tls_prf_model tls12 sha3 premaster
-                (firstn n_tls_LABEL_EXT_SIZE s_tls_LABEL_EXT_MASTERSEC ++ hs_snapshot_model tls12 sha3 chunks) t_SSL_HS_MASTER_SIZE.
+                (l_ext_master ++ hs_snapshot_model tls12 sha3 chunks) t_SSL_HS_MASTER_SIZE.
 
 (* genKeyBlock: reqKeyLen = 2 macSize + 2 keySize + 2 ivSize of ssl->cipher; PS_MEM_FAIL (here LimitFail) if it does not fit *)
 Definition req_key_len (mac key iv : nat) : nat := 2 * mac + 2 * key + 2 * iv.
 Definition gen_key_block_model (tls12 sha3 : bool) (mac key iv : nat) (master cr sr : list N) : res (list N) :=
   if t_SSL_MAX_KEY_BLOCK_SIZE <? req_key_len mac key iv then LimitFail else
-  tls_prf_model tls12 sha3 master (firstn n_tls_LABEL_SIZE s_tls_LABEL_KEY_BLOCK ++ sr ++ cr) (req_key_len mac key iv).
+  tls_prf_model tls12 sha3 master (l_key_block ++ sr ++ cr) (req_key_len mac key iv).
 
 (* the pointers into keyBlock set at the end of genKeyBlock *)
 Record kb_ptrs := { p_wMAC : list N; p_rMAC : list N; p_wKey : list N; p_rKey : list N; p_wIV : list N; p_rIV : list N }.
@@ -137,8 +154,8 @@ Definition cipher_sizes (id : N) : option (nat * nat * nat * nat * bool * nat) :
 (* ================================================================== hsHash.c *)
 (* tlsGenerateFinishedHash, senderFlag >= 0: tmp = label[0..15) + snapshot; prf/prf2 to 12 bytes *)
 Definition finished_model (tls12 sha3 : bool) (master : list N) (chunks : list (list N)) (sender_is_server : bool) : res (list N) :=
-  let label := if sender_is_server then s_hsHash_LABEL_SERVER else s_hsHash_LABEL_CLIENT in
-  tls_prf_model tls12 sha3 master (firstn n_hsHash_FINISHED_LABEL_SIZE label ++ hs_snapshot_model tls12 sha3 chunks) t_TLS_HS_FINISHED_SIZE.
+  let label := if sender_is_server then l_server_finished else l_client_finished in
+  tls_prf_model tls12 sha3 master (label ++ hs_snapshot_model tls12 sha3 chunks) t_TLS_HS_FINISHED_SIZE.
 
 (* ================================================================== TLS 1.3: hkdf.c, tls13KeySchedule.c *)
 (* psDynBufAppendTlsVector(db, minLen, maxLen < 256, data, len): one length octet *)
@@ -169,38 +186,36 @@ Definition early_secret_model (sha3 : bool) (psk : option (list N)) : res (list 
 (* tls13DeriveEarlySecrets: the binder secret (label by psk->isResumptionPsk) *)
 Definition binder_secret_model (sha3 isres : bool) (early : list N) : res (list N) :=
   derive_secret_model sha3 early
-    (if isres then firstn n_tls13KeySchedule_resBinderLabelLen s_tls13KeySchedule_resBinderLabel
-     else firstn n_tls13KeySchedule_extBinderLabelLen s_tls13KeySchedule_extBinderLabel) [].
+    (if isres then l_res_binder else l_ext_binder) [].
 (* tls13DeriveEarlyDataSecret *)
 Definition early_traffic_model (sha3 : bool) (early snapCH : list N) : res (list N) :=
-  derive_secret_model sha3 early (firstn n_tls13KeySchedule_earlyTrafficLabelLen s_tls13KeySchedule_cEarlyTrafficLabel) snapCH.
+  derive_secret_model sha3 early l_c_e_traffic snapCH.
 
 Record hs_secrets := { m_handshake : list N; m_c_hs : list N; m_s_hs : list N }.
 (* tls13DeriveHandshakeTrafficSecrets: shared = the (EC)DHE secret, or secretLen zero bytes in psk_ke mode *)
 Definition hs_secrets_model (sha3 : bool) (early : list N) (shared : option (list N)) (snapCHtoSH : list N) : res hs_secrets :=
-  bind (derive_secret_model sha3 early (firstn n_tls13KeySchedule_derivedLabelLen s_tls13KeySchedule_derivedLabel) []) (fun derived =>
+  bind (derive_secret_model sha3 early l_derived []) (fun derived =>
   bind (hkdf_extract_model sha3 derived (match shared with Some s => s | None => zero_bytes (hash_size sha3) end)) (fun hs =>
-  bind (derive_secret_model sha3 hs (firstn n_tls13KeySchedule_trafficLabelLen s_tls13KeySchedule_cHsTrafficLabel) snapCHtoSH) (fun c =>
-  bind (derive_secret_model sha3 hs (firstn n_tls13KeySchedule_trafficLabelLen s_tls13KeySchedule_sHsTrafficLabel) snapCHtoSH) (fun s =>
+  bind (derive_secret_model sha3 hs l_c_hs_traffic snapCHtoSH) (fun c =>
+  bind (derive_secret_model sha3 hs l_s_hs_traffic snapCHtoSH) (fun s =>
     Ok {| m_handshake := hs; m_c_hs := c; m_s_hs := s |})))).
 
 Record app_secrets := { m_master : list N; m_c_ap : list N; m_s_ap : list N }.
 (* tls13DeriveAppTrafficSecrets: snapshot = tls13TrHashSnapshot taken after the server Finished *)
 Definition app_secrets_model (sha3 : bool) (hs snapshot : list N) : res app_secrets :=
-  bind (derive_secret_model sha3 hs (firstn n_tls13KeySchedule_derivedLabelLen s_tls13KeySchedule_derivedLabel) []) (fun derived =>
+  bind (derive_secret_model sha3 hs l_derived []) (fun derived =>
   bind (hkdf_extract_model sha3 derived (zero_bytes (hash_size sha3))) (fun master =>
-  bind (derive_secret_model sha3 master (firstn n_tls13KeySchedule_trafficLabelLen s_tls13KeySchedule_cApTrafficLabel) snapshot) (fun c =>
-  bind (derive_secret_model sha3 master (firstn n_tls13KeySchedule_trafficLabelLen s_tls13KeySchedule_sApTrafficLabel) snapshot) (fun s =>
+  bind (derive_secret_model sha3 master l_c_ap_traffic snapshot) (fun c =>
+  bind (derive_secret_model sha3 master l_s_ap_traffic snapshot) (fun s =>
     Ok {| m_master := master; m_c_ap := c; m_s_ap := s |})))).
 (* tls13DeriveResumptionMasterSecret: snapshot after the client Finished *)
 Definition res_master_model (sha3 : bool) (master snapshot : list N) : res (list N) :=
-  derive_secret_model sha3 master (firstn n_tls13KeySchedule_resLabelLen s_tls13KeySchedule_resLabel) snapshot.
+  derive_secret_model sha3 master l_res_master snapshot.
 
-Definition the_arg (l : list (list N * nat)) : list N := match l with [(s, n)] => firstn n s | _ => [] end.
 (* tls13DeriveHandshakeKeys / tls13DeriveAppKeys / tls13DeriveEarlyDataKeys: (key, iv) from one traffic secret *)
 Definition traffic_keys_model (sha3 : bool) (secret : list N) (keySize ivSize : nat) : res (list N * list N) :=
-  bind (hkdf_expand_label_model sha3 secret (the_arg a_tls13KeySchedule_key) [] keySize) (fun k =>
-  bind (hkdf_expand_label_model sha3 secret (the_arg a_tls13KeySchedule_iv) [] ivSize) (fun iv => Ok (k, iv))).
+  bind (hkdf_expand_label_model sha3 secret l_key [] keySize) (fun k =>
+  bind (hkdf_expand_label_model sha3 secret l_iv [] ivSize) (fun iv => Ok (k, iv))).
 (* which secret feeds the read / write side: isServer ? (read = client secret, write = server secret) : the reverse *)
 Definition rw_keys_model (sha3 is_server : bool) (c_secret s_secret : list N) (keySize ivSize : nat)
   : res ((list N * list N) * (list N * list N)) :=                                           (* (read, write) *)
@@ -210,13 +225,13 @@ Definition rw_keys_model (sha3 is_server : bool) (c_secret s_secret : list N) (k
 
 (* tls13DeriveFinishedKey / tls13DeriveBinderKey *)
 Definition finished_key_model (sha3 : bool) (base : list N) : res (list N) :=
-  hkdf_expand_label_model sha3 base (firstn n_tls13KeySchedule_finishedLabelLen s_tls13KeySchedule_finishedLabel) [] (hash_size sha3).
+  hkdf_expand_label_model sha3 base l_finished [] (hash_size sha3).
 (* tls13WriteFinished / tls13ParseFinished: psHmacSingle(alg, tls13FinishedKey, hmacLen, trHash, hmacLen, out) *)
 Definition verify_data_model (sha3 : bool) (base trHash : list N) : res (list N) :=
   bind (finished_key_model sha3 base) (fun fk => bind (ps_hmac_model sha3 fk trHash) (fun r => Ok (fst r))).
 (* tls13DeriveResumptionPsk *)
 Definition resumption_psk_model (sha3 : bool) (res_master nonce : list N) : res (list N) :=
-  hkdf_expand_label_model sha3 res_master (the_arg a_tls13Resume_resumption) nonce (hash_size sha3).
+  hkdf_expand_label_model sha3 res_master l_resumption nonce (hash_size sha3).
 
 (* tls13TranscriptHashReinit: Finish into tls13TrHashSnapshotCH1, Init, Update(254 00 00 hashlen || snapshot) *)
 Definition sha2_stream (sha3 : bool) (chunks : list (list N)) : list N :=
